@@ -274,7 +274,9 @@ func c02Specs(c *run.Ctx) []built {
 			}
 		}
 	}
-	out = append(out, specsByName("ugc", "attrs", "links", "media", "styles", "pattern", "pattern-bare", "cmd-email")...)
+	out = append(out, specsByName("ugc", "attrs", "links", "media", "styles", "pattern", "pattern-bare", "cmd-email", "ugc-spaces-comments", "rare-builder-forms")...)
+	out = append(out, spec.Spec{Name: "c02-spaces", Base: "new", Calls: []C{els("span", "q"), attrsOn([]string{"id"}, `^[a-z]+$`, "a", "my-x"), attrsPat([]string{"name"}, "", reMyX),
+		attrsGlob([]string{"title"}, ""), opt("AddSpaceWhenStrippingTag", true)}})
 	return buildAll(out)
 }
 
